@@ -210,6 +210,8 @@ type Result struct {
 	Elapsed  time.Duration
 	Panics   []string
 	Logs     []string
+	// operation fill: updates sent, and the size aimed at
+	FillSteps, FillTarget int
 }
 
 func (s *subState) live() []*sess {
@@ -490,6 +492,13 @@ func (w *World) Exec(op Op) *Result {
 				se.live, se.released = false, true
 			}
 		}
+	case "fill":
+		lv := st.live()
+		if len(lv) == 0 {
+			res.Skipped = true
+			return res
+		}
+		return w.fill(st, lv[op.Sess%len(lv)], op)
 	case "aged":
 		// the subscriber's rating group has been in use for a long time: its credit-control request counter stands at
 		// op.Amt (reachable only by that many requests); it never goes back
